@@ -867,6 +867,59 @@ def shared_state_rule(index, rep, rid, modules):
     return n
 
 
+INPLACE_DUNDERS = ("__iadd__", "__isub__", "__imul__", "__ior__", "__iand__", "__ixor__", "__itruediv__", "__ifloordiv__", "__imod__", "__ilshift__", "__irshift__")
+
+
+def protocol_rule(index, rep, rid, modules):
+    """Python protocol contracts the callers rely on without seeing them:
+    (a) an in-place operator method returns an object (normally self) on every normal path - `x += y` rebinds x to the
+        result, so a bare return turns x into None;
+    (b) a template that goes through `.format()` / `%` is a constant: data is passed as an argument, never concatenated
+        into the template (a brace or percent sign in the data would be read as a placeholder)."""
+    n = 0
+    for m in modules:
+        for f in index.functions_in_module(m):
+            if f.name in INPLACE_DUNDERS:
+                g = cfg_of(f)
+                n += 1
+                bad = None
+                for nd in g.nodes:
+                    if nd.kind == "stmt" and isinstance(nd.ast, ast.Return) and (nd.ast.value is None or is_none(nd.ast.value)) and g.can_reach(g.entry, lambda x, nd=nd: x is nd, skip_src=False):
+                        bad = nd.stmt
+                if bad is None:
+                    # falling off the end
+                    for nd in g.nodes:
+                        if any(t is g.exit and lab != "e" for lab, t in nd.succ) and not (nd.kind == "stmt" and isinstance(nd.ast, (ast.Return, ast.Raise))) and g.can_reach(g.entry, lambda x, nd=nd: x is nd, skip_src=False):
+                            bad = nd.stmt or f.node
+                rep.check(bad is None, rid, f.qualname, "%s can return None" % f.name, fn_where(f, bad), "%s returns an object on every normal path" % f.qualname,
+                          "%s has a normal path that returns None (`%s`): `a %s= b` rebinds `a` to the method's result, so on that path the collection the caller was accumulating into is replaced by None and the next operation on it fails" % (f.qualname, norm_stmt(bad)[:50] if isinstance(bad, ast.stmt) else "falls off the end", {"__iadd__": "+", "__ior__": "|", "__isub__": "-", "__imul__": "*", "__iand__": "&"}.get(f.name, "op")))
+            for c in calls_in(f.node, nested=True):
+                tmpl = None
+                if isinstance(c.func, ast.Attribute) and c.func.attr == "format":
+                    tmpl = c.func.value
+                if tmpl is None:
+                    continue
+                n += 1
+                expr = tmpl
+                if isinstance(expr, ast.Name):
+                    defs = [a for a in walk_no_nested(f.node) if isinstance(a, ast.Assign) and len(a.targets) == 1 and isinstance(a.targets[0], ast.Name) and a.targets[0].id == expr.id]
+                    augs = [a for a in walk_no_nested(f.node) if isinstance(a, ast.AugAssign) and isinstance(a.target, ast.Name) and a.target.id == expr.id]
+                    if len(defs) == 1 and not augs:
+                        expr = defs[0].value
+                    elif augs:
+                        expr = ast.BinOp(left=ast.Constant(value=""), op=ast.Add(), right=augs[0].value)
+
+                def dynamic_concat(e):
+                    if isinstance(e, ast.BinOp) and isinstance(e.op, ast.Add):
+                        return any(dynamic_concat(x) or not (isinstance(x, ast.Constant) or isinstance(x, ast.BinOp)) for x in (e.left, e.right))
+                    if isinstance(e, ast.JoinedStr):
+                        return any(isinstance(v, ast.FormattedValue) for v in e.values)
+                    return False
+                rep.check(not dynamic_concat(expr), rid, f.qualname, "data concatenated into a format template", fn_where(f, c), "",
+                          "%s builds the template of `%s` by concatenating run-time data into it: a `{` or `}` in that data (a taxon label such as `{ingroup}`) is then read as a placeholder, and composing the message fails with KeyError / IndexError / ValueError - the caller gets that instead of the documented error" % (f.qualname, norm(c)[:70]))
+    return n
+
+
 NUMERIC_EXEMPT = {
     "dendropy.model.coalescent.discrete_time_to_coalescence:pop_size": "documented: a population size of 0 or None both mean 'time in population units'",
 }
@@ -892,6 +945,11 @@ def generic_rules(prop, index, rep):
         ns = shared_state_rule(index, rep, rid4, mods)
         rep.ob(rid4, "src/dendropy", "%d defaults, class-level and module-level containers examined" % ns, True)
         rep.floor(rid4, "default arguments and containers examined", 5, ns)
+    rid5 = "R%s.P" % prop[1:]
+    rep.rule(rid5, "protocol contracts in the property's modules and the error classes: in-place operator methods return an object on every normal path; format templates are constants (data is an argument, never concatenated into the template)")
+    with rep.section(rid5):
+        npc = protocol_rule(index, rep, rid5, mods + ["dendropy.utility.error"])
+        rep.ob(rid5, "src/dendropy", "%d in-place operator methods and format calls examined" % npc, True, nontrivial=npc > 0)
     rid2 = "R%s.V" % prop[1:]
     rep.rule(rid2, "right variable in nested loops: an inner loop over a collection derived from the outer item uses its own item")
     with rep.section(rid2):
